@@ -857,13 +857,21 @@ class FloatValidator(SOValidator):
     def to_python(self, value, state):
         if value is None:
             return None
-        if isinstance(value, (float, int, long, sqlbuilder.SQLExpression)):
+        if isinstance(value, (float, sqlbuilder.SQLExpression)):
             return value
+        if isinstance(value, (int, long)):
+            # the column holds a float: keep what will be stored
+            try:
+                return float(value)
+            except OverflowError:
+                raise validators.Invalid(
+                    "the int %r is too large for the FloatCol '%s'" % (
+                        value, self.name), value, state)
         for converter, attr_name in (
                 (float, '__float__'), (int, '__int__'), (long, '__long__')):
             if hasattr(value, attr_name):
                 try:
-                    return converter(value)
+                    return float(converter(value))
                 except Exception:
                     break
         raise validators.Invalid(
